@@ -69,13 +69,15 @@ def resetFrom (size : Nat) (bs : List Bucket) (start : Nat) : Nat → List Bucke
   | 0 => bs
   | n + 1 => resetFrom size (bs.set (start % size) {}) (start + 1) n
 
-def RW.updateOffset (w : RW) (now : Nat) : RW :=
-  let s := w.span now
-  if s = 0 then w
-  else { w with
-    buckets := resetFrom w.size w.buckets (w.offset + 1) s
-    offset := (w.offset + s) % w.size
+/-- `updateOffset` past its early return (`span > 0`): reset the expired buckets, move `offset`, realign `lastTime`. -/
+def RW.updateOffset' (w : RW) (now : Nat) : RW :=
+  { w with
+    buckets := resetFrom w.size w.buckets (w.offset + 1) (w.span now)
+    offset := (w.offset + w.span now) % w.size
     lastTime := now - (now - w.lastTime) % w.interval }
+
+def RW.updateOffset (w : RW) (now : Nat) : RW :=
+  if w.span now = 0 then w else w.updateOffset' now
 
 /-- `Add(v)`: updateOffset, then `buckets[offset % size].Add(v)`. -/
 def RW.add (w : RW) (now : Nat) (m : Mark) : RW :=
@@ -114,20 +116,24 @@ def Breaker.init (now : Nat) : Breaker := { rw := RW.init nBuckets intervalNs no
 
 def Breaker.history (b : Breaker) (now : Nat) : WinRes := summarize (b.rw.visible now)
 
-/-- `w = k - (k-minK)*failingBuckets/buckets`, then `AtLeast(w, minK)` -/
+/-- `w = k - (k-minK)*float64(failingBuckets)/buckets`, then `mathx.AtLeast(w, minK)`
+(integers enter the float arithmetic through `float64(int64)`, hence the `Int → Rat` casts) -/
+def rawWeight (fb : Nat) : Rat :=
+  kMax - (kMax - kMin) * (((fb : Nat) : Int) : Rat) / ((40 : Int) : Rat)
+
 def weight (fb : Nat) : Rat :=
-  let w := kMax - (kMax - kMin) * (fb : Rat) / (nBuckets : Rat)
-  if w < kMin then kMin else w
+  if rawWeight fb < kMin then kMin else rawWeight fb
 
 /-- numerator of the first drop ratio: `float64(total-protection) - weightedAccepts` -/
-def dropNum (h : WinRes) : Rat := ((h.total : Int) - (protection : Int) : Int) - weight h.failingBuckets * (h.accepts : Rat)
+def dropNum (h : WinRes) : Rat :=
+  ((((h.total : Nat) : Int) - 5 : Int) : Rat) - weight h.failingBuckets * (((h.accepts : Nat) : Int) : Rat)
 
 /-- `dropRatio := (float64(total-protection) - weightedAccepts) / float64(total+1)` -/
-def dropRatio0 (h : WinRes) : Rat := dropNum h / ((h.total + 1 : Nat) : Rat)
+def dropRatio0 (h : WinRes) : Rat := dropNum h / ((((h.total : Nat) : Int) + 1 : Int) : Rat)
 
 /-- `dropRatio *= float64(buckets-workingBuckets) / buckets` -/
 def dropRatio1 (h : WinRes) : Rat :=
-  dropRatio0 h * ((((nBuckets : Int) - (h.workingBuckets : Int) : Int) : Rat) / (nBuckets : Rat))
+  dropRatio0 h * ((((40 : Int) - ((h.workingBuckets : Nat) : Int) : Int) : Rat) / ((40 : Int) : Rat))
 
 inductive Verdict | pass | reject
   deriving Repr, DecidableEq, Inhabited
